@@ -57,7 +57,11 @@ class Ctx:
         self.nontrivial = set()
         self.samples = []
         self.cases = 0
-        self.case_info = None
+        self.known = []           # known-finding entries for this property
+        self.predicates = {}
+        self.absorbed = {}        # key -> count
+        self.absorbed_examples = {}
+        self.unrecorded = 0
 
     # -- verdict sinks ----------------------------------------------------
     def ok(self, monitor, n=1):
@@ -66,15 +70,22 @@ class Ctx:
     def fail(self, monitor, **witness):
         self.monitors[monitor] = self.monitors.get(monitor, 0) + 1
         self.failed[monitor] = self.failed.get(monitor, 0) + 1
-        if len(self.violations) < MAX_RECORDED:
-            witness = {k: (v() if callable(v) else v)
-                       for k, v in witness.items()}
-            self.violations.append({
-                "monitor": monitor,
-                "case": {"tier": self.tier, "seed": self.seed,
-                         "shard": self.shard, "nshards": self.nshards,
-                         "index": self.index},
-                "witness": jsonable(witness)})
+        from verif import findings
+        witness = {k: (v() if callable(v) else v) for k, v in witness.items()}
+        violation = {
+            "monitor": monitor,
+            "case": {"tier": self.tier, "seed": self.seed,
+                     "shard": self.shard, "nshards": self.nshards,
+                     "index": self.index},
+            "witness": jsonable(witness)}
+        key = findings.classify(self.known, violation, self.predicates)
+        if key is not None:
+            self.absorbed[key] = self.absorbed.get(key, 0) + 1
+            self.absorbed_examples.setdefault(key, violation)
+        elif len(self.violations) < MAX_RECORDED:
+            self.violations.append(violation)
+        else:
+            self.unrecorded += 1
 
     def expect(self, monitor, cond, **witness):
         if cond:
@@ -135,7 +146,10 @@ def run_one_case(mod, ctx, index):
 def worker(args):
     from verif import instrument
     mod = load_prop(args.prop)
+    from verif import findings
     ctx = Ctx(args.prop, args.tier, args.seed, args.shard, args.nshards)
+    ctx.known = findings.load(mod.ID)
+    ctx.predicates = getattr(mod, "PREDICATES", {})
     cover = instrument.Coverage(getattr(mod, "COVER", {}))
     cover.start()
     l1 = None
@@ -161,6 +175,8 @@ def worker(args):
     out = {
         "shard": args.shard, "cases": ctx.cases, "monitors": ctx.monitors,
         "failed": ctx.failed, "violations": ctx.violations,
+        "absorbed": ctx.absorbed, "unrecorded": ctx.unrecorded,
+        "absorbed_examples": ctx.absorbed_examples,
         "counters": ctx.counters, "refusals": ctx.refusals,
         "nontrivial": sorted(ctx.nontrivial), "samples": ctx.samples,
         "coverage": cover.report(), "wall_s": time.time() - t0,
@@ -186,11 +202,15 @@ def env_for_children():
 
 def merge(results):
     tot = {"cases": 0, "monitors": {}, "failed": {}, "violations": [],
+           "absorbed": {}, "unrecorded": 0, "absorbed_examples": {},
            "counters": {}, "refusals": {}, "nontrivial": set(), "samples": [],
            "coverage": {}, "l1": {}}
     for res in results:
         tot["cases"] += res["cases"]
-        for key in ("monitors", "failed", "counters", "refusals"):
+        tot["unrecorded"] += res.get("unrecorded", 0)
+        for k, v in res.get("absorbed_examples", {}).items():
+            tot["absorbed_examples"].setdefault(k, v)
+        for key in ("monitors", "failed", "counters", "refusals", "absorbed"):
             for k, v in res[key].items():
                 tot[key][k] = tot[key].get(k, 0) + v
         tot["violations"] += res["violations"]
@@ -282,17 +302,9 @@ def controller(args):
         os.rmdir(tmpdir)
 
     tot = merge(results)
-    # -- classify violations ------------------------------------------------
+    # -- violations were classified in the workers ---------------------------
     known = findings.load(pid)
-    absorbed, unlisted = {}, []
-    for violation in tot["violations"]:
-        key = findings.classify(known, violation, getattr(mod, 'PREDICATES', {}))
-        if key is None:
-            unlisted.append(violation)
-        else:
-            absorbed[key] = absorbed.get(key, 0) + 1
-    recorded = len(tot["violations"])
-    total_failed = sum(tot["failed"].values())
+    absorbed, unlisted = tot["absorbed"], tot["violations"]
     # -- coverage gate --------------------------------------------------------
     cover_report, cover_short = {}, []
     for fn, rep in tot["coverage"].items():
@@ -334,12 +346,12 @@ def controller(args):
             "constructor_monitor": tot["l1"],
             "shards": {"requested": nshards, "completed": len(results)},
             "known_findings_absorbed": absorbed,
+            "known_finding_examples": tot["absorbed_examples"],
             "inconclusive_reasons": inconclusive,
         },
         "assumptions": getattr(mod, "ASSUMPTIONS", []),
         "wall_s": round(wall, 2),
-        "violations": len(unlisted) if recorded == total_failed else
-        max(len(unlisted), total_failed - sum(absorbed.values())),
+        "violations": len(unlisted) + tot["unrecorded"],
     }
     evidence_dir = os.environ.get(
         "VERIF_EVIDENCE_DIR", os.path.join(HERE, "evidence"))
@@ -367,13 +379,6 @@ def controller(args):
             print("  monitor={} witness={}".format(
                 violation["monitor"], json.dumps(violation["witness"])[:600]))
         return 1
-    if total_failed > recorded:
-        # more failures than recorded verbatim and all recorded ones are known:
-        # cannot classify the rest -> not a clean pass
-        print("INCONCLUSIVE property={} {} failures beyond the {} recorded "
-              "verbatim could not be classified".format(
-                  pid, total_failed - recorded, recorded))
-        return 2
     if inconclusive:
         for reason in inconclusive:
             print("INCONCLUSIVE property={} {}".format(pid, reason))
